@@ -2,7 +2,7 @@ package props
 
 // Native (coverage-guided) fuzz targets, used by the thorough tier only.
 //
-// FuzzC01 / FuzzC05 / FuzzC10 feed the fuzzer's bytes to rapid as its bit stream
+// FuzzC01 / C02 / C03 / C05 / C06 / C07 / C10 / C15 / C17 / C18 feed the fuzzer's bytes to rapid as its bit stream
 // (rapid.MakeFuzz), so the structured generators and the oracles of the rapid checks are reused
 // and coverage guides the choice sequence. FuzzBytes is a plain byte-level target for the
 // entry points that take bytes (Unmarshal), with the round-trip and no-panic oracles inside.
@@ -46,6 +46,41 @@ func FuzzC05(f *testing.F) {
 func FuzzC10(f *testing.F) {
 	seedBitStreams(f)
 	f.Fuzz(rapid.MakeFuzz(propC10(ev.For("C10"))))
+}
+
+func FuzzC02(f *testing.F) {
+	seedBitStreams(f)
+	f.Fuzz(rapid.MakeFuzz(propC02(ev.For("C02"))))
+}
+
+func FuzzC03(f *testing.F) {
+	seedBitStreams(f)
+	f.Fuzz(rapid.MakeFuzz(propC03(ev.For("C03"))))
+}
+
+func FuzzC06(f *testing.F) {
+	seedBitStreams(f)
+	f.Fuzz(rapid.MakeFuzz(propC06(ev.For("C06"))))
+}
+
+func FuzzC07(f *testing.F) {
+	seedBitStreams(f)
+	f.Fuzz(rapid.MakeFuzz(propC07(ev.For("C07"))))
+}
+
+func FuzzC15(f *testing.F) {
+	seedBitStreams(f)
+	f.Fuzz(rapid.MakeFuzz(propC15(ev.For("C15"))))
+}
+
+func FuzzC17(f *testing.F) {
+	seedBitStreams(f)
+	f.Fuzz(rapid.MakeFuzz(propC17(ev.For("C17"))))
+}
+
+func FuzzC18(f *testing.F) {
+	seedBitStreams(f)
+	f.Fuzz(rapid.MakeFuzz(propC18(ev.For("C18"))))
 }
 
 // FuzzBytes: arbitrary bytes into Unmarshal. Oracles: no panic anywhere; if Unmarshal accepts,
